@@ -48,7 +48,8 @@ func codesCheck(args []string) int {
 		fmt.Fprintln(os.Stderr, "no table on stdin")
 		return 2
 	}
-	var bad []string
+	var bad []map[string]string
+	add := func(kind, text string) { bad = append(bad, map[string]string{"kind": kind, "text": text}) }
 	n := 0
 	for c, want := range table.Hier {
 		var got []string
@@ -59,19 +60,26 @@ func codesCheck(args []string) int {
 		if c == "ALL" {
 			// the specification's Hier("ALL") = <<ALL, ALL>>; the implementation may yield ALL once or twice
 			if !(slices.Equal(got, want) || slices.Equal(got, []string{"ALL"})) {
-				bad = append(bad, fmt.Sprintf("GetCodesForCheck(%q) = %v, specification %v", c, got, want))
+				add("hier", fmt.Sprintf("GetCodesForCheck(%q) = %v, specification %v", c, got, want))
 			}
 			continue
 		}
 		if !slices.Equal(got, want) {
-			bad = append(bad, fmt.Sprintf("GetCodesForCheck(%q) = %v, specification %v", c, got, want))
+			gs, ws := append([]string(nil), got...), append([]string(nil), want...)
+			sort.Strings(gs)
+			sort.Strings(ws)
+			kind := "hier"
+			if slices.Equal(slices.Compact(gs), slices.Compact(ws)) {
+				kind = "order" // the same tokens in another order: the decision is the same
+			}
+			add(kind, fmt.Sprintf("GetCodesForCheck(%q) = %v, specification %v", c, got, want))
 		}
 	}
 	for c, page := range table.Doc {
 		n++
 		want := "https://a14e.github.io/gogreement/" + page
 		if got := codes.GetDocumentationURL(c); got != want {
-			bad = append(bad, fmt.Sprintf("GetDocumentationURL(%q) = %q, specification %q", c, got, want))
+			add("doc", fmt.Sprintf("GetDocumentationURL(%q) = %q, specification %q", c, got, want))
 		}
 	}
 	for cat, want := range table.Codes {
@@ -80,19 +88,19 @@ func codesCheck(args []string) int {
 		for _, c := range codes.CodesByCategory[cat] {
 			got = append(got, c.ID)
 			if c.Description == "" {
-				bad = append(bad, "code "+c.ID+" has no description")
+				add("description", "code "+c.ID+" has no description")
 			}
 		}
 		sort.Strings(got)
 		w := append([]string(nil), want...)
 		sort.Strings(w)
 		if !slices.Equal(got, w) {
-			bad = append(bad, fmt.Sprintf("CodesByCategory[%q] = %v, specification %v", cat, got, w))
+			add("table", fmt.Sprintf("CodesByCategory[%q] = %v, specification %v", cat, got, w))
 		}
 	}
 	n++
 	if len(codes.CodesByCategory) != len(table.Codes) {
-		bad = append(bad, fmt.Sprintf("CodesByCategory has %d categories, specification %d", len(codes.CodesByCategory), len(table.Codes)))
+		add("table", fmt.Sprintf("CodesByCategory has %d categories, specification %d", len(codes.CodesByCategory), len(table.Codes)))
 	}
 	_ = json.NewEncoder(os.Stdout).Encode(map[string]any{"comparisons": n, "mismatches": bad})
 	if len(bad) > 0 {
